@@ -78,7 +78,7 @@ def gen_cases(ctx):
     if ctx.quick:
         ctx.exhaustive = False
         allt = list(itertools.product(REL, repeat=3))
-        triples += rng.sample(allt, 40)
+        triples += rng.sample(allt, 30)
     else:
         triples = list(itertools.product(REL, repeat=3))
     for rs in triples:
@@ -130,7 +130,7 @@ def gen_cases(ctx):
         s = rng.randrange(0, n - 2)
         return [s, rng.randrange(s + 3, n + 1)]
 
-    for i in range(24 if ctx.quick else 400):
+    for i in range(20 if ctx.quick else 400):
         if rng.random() < 0.5:
             # bias towards containment: device >= 3 cells per axis, object strictly inside it on most axes
             dev = [riv3(8) for _ in range(3)]
